@@ -223,7 +223,7 @@ class kFlowDecomp(pathmodel.AbstractPathModelDAG):
         
         self.optimization_options["trusted_edges_for_safety"] = self.G.get_non_zero_flow_edges(flow_attr=self.flow_attr, edges_to_ignore=self.edges_to_ignore)
 
-        self.solution_weights_superset = solution_weights_superset
+        self.solution_weights_superset = list(solution_weights_superset) if solution_weights_superset is not None else None      # (a copy, read again in get_solution())
         
         if self.solution_weights_superset is not None:
             self.k = len(self.solution_weights_superset)
